@@ -126,6 +126,74 @@ let () =
               | _ -> ()
             end) tbl;
         if !bad = "" then Printf.sprintf "ksubloop:ok(%d)" !cnt else "ksubloop:" ^ !bad in
+      (* correspondence of the composed labelling model canon_real (Search/ComposeModel.v: the
+         proved search-labelling model behind the adapter of getAutomorphismGroup, with the
+         CheckViability early exit canon_search_v) with the REAL answers of
+         graph.CanonicalIsomorphAllocated, on every C entry of the table (sampled above
+         canon_full_k vertices).  Projected (what canon_spec determines): the orbit partition of
+         the real forest = the model's; a real nil answer only where the clause ok_early allows
+         it, judged with the model's (proved) orbits: the first vertex of the real canonical
+         order that is the last vertex or viable is not in the orbit of the last vertex; a real
+         non-nil CheckViability answer has the partition of the plain answer.  Strict: the exact
+         permutation, raw orbit array and generators (also nil where the model exits). *)
+      let canon_model_verdict (canon_full_k : int) (canon_sample : int) : string * string =
+        let cache_string (c : cache) : string =
+          (match c.cPerm with None -> "nil" | Some p -> nats p) ^ "~" ^
+          join_ints (List.map int_of_z c.cOrb) ^ "~" ^ gens_string c.cGens in
+        (* least member of the class of every vertex; [] if the array is not a forest *)
+        let labels (o : int array) : int list =
+          let n = Array.length o in
+          let root x = let r = ref x and steps = ref 0 in
+            while !r >= 0 && !r < n && o.(!r) >= 0 && !steps <= n do r := o.(!r); incr steps done;
+            if !r < 0 || !r >= n || !steps > n then -1 else !r in
+          let rs = Array.init n root in
+          if Array.exists (fun r -> r < 0) rs then [] else
+            Array.to_list (Array.map (fun r -> let m = ref (-1) in
+                                       Array.iteri (fun j rj -> if !m < 0 && rj = r then m := j) rs; !m) rs) in
+        let orb_of (v : string) : int array = match String.split_on_char '~' v with
+          | [_; o; _] -> Array.of_list (ints o) | _ -> [||] in
+        let perm_of (v : string) : string = match String.split_on_char '~' v with p :: _ -> p | [] -> "" in
+        let plain : (string, int list * int list) Hashtbl.t = Hashtbl.create 4096 in
+        let bad = ref "" and sbad = ref "" and cnt = ref 0 in
+        let keys = Hashtbl.fold (fun k _ acc -> if String.length k > 0 && k.[0] = 'C' then k :: acc else acc) tbl [] in
+        List.iter (fun key ->
+            match String.split_on_char ':' (String.sub key 1 (String.length key - 1)) with
+            | [k; m; nb; cv; vb] ->
+              let k = int_of_string k and vbi = int_of_string vb in
+              let take = k <= canon_full_k || ((vbi * 7 + int_of_string m + String.length nb) mod canon_sample = 0) in
+              if take then begin
+                incr cnt;
+                let nbl = if k = 0 then [] else
+                    List.map (fun s -> List.map nat_of_int (ints s)) (String.split_on_char '.' nb) in
+                let model cvb vbn = canon_real (nat_of_int k) (z_of_int (int_of_string m)) nbl cvb vbn in
+                let real = Hashtbl.find tbl key in
+                let c = model (cv = "1") (n_of_int vbi) in
+                if !sbad = "" && cache_string c <> real then sbad := "MISMATCH:" ^ key;
+                if !bad = "" then begin
+                  let gkey = Printf.sprintf "C%d:%s:%s:0:0" k m nb in
+                  let (mlab, preal) =
+                    match Hashtbl.find_opt plain gkey with
+                    | Some x -> x
+                    | None ->
+                      let c0 = if cv = "0" then c else model false N0 in
+                      let x = (labels (Array.of_list (List.map int_of_z c0.cOrb)),
+                               (match Hashtbl.find_opt tbl gkey with Some v -> (try ints (perm_of v) with _ -> []) | None -> [])) in
+                      Hashtbl.add plain gkey x; x in
+                  if mlab = [] && k > 0 then bad := "FAIL:model-forest:" ^ key
+                  else if perm_of real = "nil" then begin
+                    if cv = "0" then bad := "FAIL:nil-plain:" ^ key
+                    else begin
+                      let hit = List.find_opt (fun u -> u = k - 1 || (vbi lsr u) land 1 = 1) preal in
+                      match hit with
+                      | Some u -> if List.nth mlab u = List.nth mlab (k - 1) then bad := "FAIL:early-exit-on-true-verdict:" ^ key
+                      | None -> ()
+                    end
+                  end else if labels (orb_of real) <> mlab then bad := "FAIL:orbits:" ^ key
+                end
+              end
+            | _ -> ()) keys;
+        ((if !bad = "" then "canonmodel:ok" else "canonmodel:" ^ !bad),
+         (if !sbad = "" then "canonexact:ok" else "canonexact:" ^ !sbad)) in
       (* which clause of the per-graph check fails on g ("" = none) *)
       let clause_of (g : vgraph) : string =
         match get_aut canon g false N0 with
@@ -233,6 +301,8 @@ let () =
           end
         with Missing key -> "model-missing:" ^ key in
       Buffer.add_string pj (" | spec:" ^ spec_verdict);
+      let (cm, cx) = canon_model_verdict 5 256 in
+      Buffer.add_string pj (" | " ^ cm);
       List.iter (fun m ->
           List.iter (fun (p, pl) ->
               let pre = if pl = "pre" || pl = "both" then pred_of p else p_none in
@@ -257,7 +327,7 @@ let () =
               Buffer.add_string pj (Printf.sprintf " | %d/%s/%s:" m p pl);
               if !bad <> "" then Buffer.add_string pj !bad
               else Buffer.add_string pj (join_ints (List.sort compare !ids))) pred_places) moduli;
-      print_endline (Buffer.contents pj ^ " ## " ^ ksub_loop_verdict () ^ Buffer.contents st)
+      print_endline (Buffer.contents pj ^ " ## " ^ cx ^ " " ^ ksub_loop_verdict () ^ Buffer.contents st)
       end
       end
     done
